@@ -36,8 +36,14 @@ def rep_in(fn, func_name, old, new, count=1):
         s = src[fn]
         tree = ast.parse(s)
         target = None
-        for n in ast.walk(tree):
-            if isinstance(n, (ast.FunctionDef,)) and n.name == func_name:
+        scope, name = (tree, func_name)
+        if "." in func_name:
+            cname, name = func_name.split(".", 1)
+            scope = next((c for c in ast.walk(tree) if isinstance(c, ast.ClassDef) and c.name == cname), None)
+            if scope is None:
+                return None
+        for n in ast.walk(scope):
+            if isinstance(n, (ast.FunctionDef,)) and n.name == name:
                 target = n
                 break
         if target is None:
@@ -876,6 +882,45 @@ VARIANTS = [
             "                    with open(cid_ref_abs_path, \"r\", encoding=\"utf8\") as cid_ref_file:\n                        fcntl.flock(cid_ref_file.fileno(), fcntl.LOCK_SH)\n                        listed = any(line.strip() == pid for line in cid_ref_file)\n                        if listed:\n                            self._update_refs_file(cid_ref_abs_path, pid, \"remove\")\n                    if False:\n                        pass\n")),
     ("C01", "C01.e", "temp file length reserved with posix_fallocate from the announced size",
      rep_in(FHS, "_mktmpfile", "        tmp = NamedTemporaryFile(dir=path, delete=False)\n", "        tmp = NamedTemporaryFile(dir=path, delete=False)\n        os.posix_fallocate(tmp.fileno(), 0, 4096)\n")),
+    ("C04", "C04.j", "store_object tags after it released its pid claim",
+     rep_in(FHS, "store_object", '                    self.fhs_logger.debug("Attempting to tag object for pid: %s", pid)\n                    cid = object_metadata.cid\n                    self.tag_object(pid, cid)\n                    self.fhs_logger.info("Successfully stored object for pid: %s", pid)\n                finally:\n                    # Release pid\n                    self._release_object_locked_pids(pid)\n', '                finally:\n                    # Release pid\n                    self._release_object_locked_pids(pid)\n                self.fhs_logger.debug("Attempting to tag object for pid: %s", pid)\n                cid = object_metadata.cid\n                self.tag_object(pid, cid)\n                self.fhs_logger.info("Successfully stored object for pid: %s", pid)\n')),
+    ("C07", "C07.k", "store_object tags after it released its pid claim",
+     rep_in(FHS, "store_object", '                    self.fhs_logger.debug("Attempting to tag object for pid: %s", pid)\n                    cid = object_metadata.cid\n                    self.tag_object(pid, cid)\n                    self.fhs_logger.info("Successfully stored object for pid: %s", pid)\n                finally:\n                    # Release pid\n                    self._release_object_locked_pids(pid)\n', '                finally:\n                    # Release pid\n                    self._release_object_locked_pids(pid)\n                self.fhs_logger.debug("Attempting to tag object for pid: %s", pid)\n                cid = object_metadata.cid\n                self.tag_object(pid, cid)\n                self.fhs_logger.info("Successfully stored object for pid: %s", pid)\n')),
+    ("C04", None, "twin: the tagging wrapped in its own try/finally inside the pid claim",
+     rep_in(FHS, "store_object", '                    self.fhs_logger.debug("Attempting to tag object for pid: %s", pid)\n                    cid = object_metadata.cid\n                    self.tag_object(pid, cid)\n                    self.fhs_logger.info("Successfully stored object for pid: %s", pid)\n                finally:\n                    # Release pid\n                    self._release_object_locked_pids(pid)\n', '                    self.fhs_logger.debug("Attempting to tag object for pid: %s", pid)\n                    cid = object_metadata.cid\n                    try:\n                        self.tag_object(pid, cid)\n                    finally:\n                        self.fhs_logger.debug("Tagging finished for pid: %s", pid)\n                    self.fhs_logger.info("Successfully stored object for pid: %s", pid)\n                finally:\n                    # Release pid\n                    self._release_object_locked_pids(pid)\n')),
+    ("C07", None, "twin: the tagging wrapped in its own try/finally inside the pid claim",
+     rep_in(FHS, "store_object", '                    self.fhs_logger.debug("Attempting to tag object for pid: %s", pid)\n                    cid = object_metadata.cid\n                    self.tag_object(pid, cid)\n                    self.fhs_logger.info("Successfully stored object for pid: %s", pid)\n                finally:\n                    # Release pid\n                    self._release_object_locked_pids(pid)\n', '                    self.fhs_logger.debug("Attempting to tag object for pid: %s", pid)\n                    cid = object_metadata.cid\n                    try:\n                        self.tag_object(pid, cid)\n                    finally:\n                        self.fhs_logger.debug("Tagging finished for pid: %s", pid)\n                    self.fhs_logger.info("Successfully stored object for pid: %s", pid)\n                finally:\n                    # Release pid\n                    self._release_object_locked_pids(pid)\n')),
+    ("C03", "C03.i", "mode switch compares the lower-cased variable with 'True'",
+     rep_in(FHS, "__init__", '                os.getenv("USE_MULTIPROCESSING", "False") == "True"\n', '                os.getenv("USE_MULTIPROCESSING", "False").lower() == "True"\n')),
+    ("C16", "C16.e", "mode switch compares the lower-cased variable with 'True'",
+     rep_in(FHS, "__init__", '                os.getenv("USE_MULTIPROCESSING", "False") == "True"\n', '                os.getenv("USE_MULTIPROCESSING", "False").lower() == "True"\n')),
+    ("C16", None, "twin: mode switch written as membership in a one-element tuple",
+     rep_in(FHS, "__init__", '                os.getenv("USE_MULTIPROCESSING", "False") == "True"\n', '                os.getenv("USE_MULTIPROCESSING", "False") in ("True",)\n')),
+    ("C08", "C08.i", "Stream opens whatever path it is given (a FIFO blocks the open)",
+     rep_in(FHS, "Stream.__init__", "        elif os.path.isfile(obj):\n", "        elif isinstance(obj, (str, os.PathLike)):\n")),
+    ("C08", None, "twin: the regular-file test of Stream held in a local",
+     rep_in(FHS, "Stream.__init__", '        if hasattr(obj, "read"):\n            pos = obj.tell()\n        elif os.path.isfile(obj):\n',
+            '        is_regular_file = (not hasattr(obj, "read")) and os.path.isfile(obj)\n        if hasattr(obj, "read"):\n            pos = obj.tell()\n        elif is_regular_file:\n')),
+    ("C01", "C01.d", "Stream's read loop also ends on a chunk counter",
+     rep_in(FHS, "Stream.__iter__", '        while True:\n            data = self._obj.read(self._buffer_size)\n\n            if not data:\n                break\n\n            yield data\n', '        chunks_left = 1 << 20\n        while chunks_left > 0:\n            data = self._obj.read(self._buffer_size)\n\n            if not data:\n                break\n\n            chunks_left -= 1\n            yield data\n')),
+    ("C09", "C09.g", "Stream's read loop also ends on a chunk counter",
+     rep_in(FHS, "Stream.__iter__", '        while True:\n            data = self._obj.read(self._buffer_size)\n\n            if not data:\n                break\n\n            yield data\n', '        chunks_left = 1 << 20\n        while chunks_left > 0:\n            data = self._obj.read(self._buffer_size)\n\n            if not data:\n                break\n\n            chunks_left -= 1\n            yield data\n')),
+    ("C01", None, "twin: two read assignments in the loop, still ended only by the empty read",
+     rep_in(FHS, "Stream.__iter__", '        while True:\n            data = self._obj.read(self._buffer_size)\n\n            if not data:\n                break\n\n            yield data\n', '        first = True\n        while True:\n            if first:\n                data = self._obj.read(self._buffer_size)\n                first = False\n            else:\n                data = self._obj.read(self._buffer_size)\n\n            if not data:\n                break\n\n            yield data\n')),
+    ("C15", "C15.b", "_shard groups the digest with zip over a repeated iterator (drops the incomplete tail)",
+     rep_in(FHS, "_shard", '        hierarchical_list = compact(\n            [checksum[i * self.width : self.width * (i + 1)] for i in range(self.depth)]\n            + [checksum[self.depth * self.width :]]\n        )\n', '        tokens = ["".join(chars) for chars in zip(*[iter(checksum)] * self.width)]\n        hierarchical_list = compact(\n            tokens[: self.depth] + ["".join(tokens[self.depth :])]\n        )\n')),
+    ("C10", "C10.f", "the in-place rewrite of the cid list sorts the lines it keeps",
+     rep_in(FHS, "_update_refs_file", '                    new_pid_lines = [\n                        cid_pid_line\n                        for cid_pid_line in ref_file.readlines()\n                        if cid_pid_line.strip() != ref_id\n                    ]\n', '                    new_pid_lines = sorted(\n                        cid_pid_line\n                        for cid_pid_line in ref_file.readlines()\n                        if cid_pid_line.strip() != ref_id\n                    )\n')),
+    ("C10", None, "twin: the lines read held in a local before filtering",
+     rep_in(FHS, "_update_refs_file", '                    new_pid_lines = [\n                        cid_pid_line\n                        for cid_pid_line in ref_file.readlines()\n                        if cid_pid_line.strip() != ref_id\n                    ]\n', '                    old_pid_lines = ref_file.readlines()\n                    new_pid_lines = [\n                        cid_pid_line\n                        for cid_pid_line in old_pid_lines\n                        if cid_pid_line.strip() != ref_id\n                    ]\n')),
+    ("C12", "C12.k", "a stale marker is removed (check, then os.remove) before the rename onto it",
+     rep_in(FHS, "_rename_path_for_deletion", '        delete_path = path.with_name(path.stem + "_delete" + path.suffix)\n        shutil.move(path, delete_path)\n', '        delete_path = path.with_name(path.stem + "_delete" + path.suffix)\n        if delete_path.exists():\n            os.remove(delete_path)\n        shutil.move(path, delete_path)\n')),
+    ("C12", None, "twin: a stale marker is only logged",
+     rep_in(FHS, "_rename_path_for_deletion", '        delete_path = path.with_name(path.stem + "_delete" + path.suffix)\n        shutil.move(path, delete_path)\n', '        delete_path = path.with_name(path.stem + "_delete" + path.suffix)\n        if delete_path.exists():\n            logging.debug("A stale marker is about to be replaced: %s", delete_path)\n        shutil.move(path, delete_path)\n')),
+    ("C15", None, "twin: a stale marker is only logged (the probe carries the look-up's candidate set)",
+     rep_in(FHS, "_rename_path_for_deletion", '        delete_path = path.with_name(path.stem + "_delete" + path.suffix)\n        shutil.move(path, delete_path)\n', '        delete_path = path.with_name(path.stem + "_delete" + path.suffix)\n        if delete_path.exists():\n            logging.debug("A stale marker is about to be replaced: %s", delete_path)\n        shutil.move(path, delete_path)\n')),
+    ("C12", None, "twin: a stale marker is removed inside a handler that absorbs its absence",
+     rep_in(FHS, "_rename_path_for_deletion", '        delete_path = path.with_name(path.stem + "_delete" + path.suffix)\n        shutil.move(path, delete_path)\n', '        delete_path = path.with_name(path.stem + "_delete" + path.suffix)\n        try:\n            os.remove(delete_path)\n        except OSError:\n            pass\n        shutil.move(path, delete_path)\n')),
     ("C13", "C13.h", "return inside finally swallows the error",
      rep_in(FHS, "_delete_object_only", "        finally:\n            self._release_object_locked_cids(cid)\n", "        finally:\n            self._release_object_locked_cids(cid)\n            return\n")),
 ]
